@@ -442,7 +442,9 @@ def finish(prop, tier, seed, plan, results, known, classify, wall, build_s, writ
         "distinct_nontrivial": plan.get("distinct_nontrivial_fn", lambda rs: orders + outcomes + crash_states)(results),
         "rule": plan["rule"] + ("" if plan.get("distinct_nontrivial_fn") else " | distinct_nontrivial counts distinct (terminal outcome + event order + crash state) classes summed over scenarios"),
         "samples": samples or [{"note": "no sample"}],
-        "exhaustive": bool(all_closed and not errors),
+        # exhaustive: every scenario's search ran out of alternatives WITHOUT a delay bound
+        "exhaustive": bool(all_closed and not errors and not any((r.get("stats") or {}).get("mode") == "delay-bounded" for r in results)),
+        "delay_bounded_scenarios": sum(1 for r in results if (r.get("stats") or {}).get("mode") == "delay-bounded"),
         "sleep_blocked_executions": tot["sleep_blocked"],
         "scenarios": scen,
         "jobs": len(results),
